@@ -72,7 +72,7 @@ func (k *Kernel) procMain(p *Proc) {
 	spec := p.spec
 	res := &ProcResult{}
 	ctx, cancel := context.WithCancel(context.Background())
-	stdout := &stampWriter{k: k}
+	stdout := &stampWriter{k: k, failAt: spec.StdoutFailAt, failAll: spec.StdoutFailAll}
 	stderr := &bufCloser{}
 	var stdinReader *faultReader
 
@@ -87,6 +87,7 @@ func (k *Kernel) procMain(p *Proc) {
 		res.Stdout = k.Norm(stdout.buf.String())
 		res.Stderr = k.Norm(stderr.String())
 		res.Stamps = stdout.st
+		res.StdoutFaults = stdout.failed
 		k.inbox <- arrival{kind: mDone, proc: p.idx, result: res}
 	}()
 
